@@ -786,6 +786,40 @@ func runC07(c *core.Ctx) {
 			}
 		}
 
+		// R12: a selector is the name as given. X decorated with characters that are syntax in the files (a colon, quotes,
+		// blanks - also ones only Unicode knows as blanks) names no element of this book, so every single-element report
+		// for it is the report for any other name the book does not have
+		if i%3 == 1 && strings.TrimSpace(X) == X {
+			D := []string{X + ":", " " + X, X + "\u00a0", "\"" + X + "\"", X + " ", "\u3000" + X, X + "\t"}[r.Intn(7)]
+			Z := "no-such-element"
+			known := false
+			for _, n := range w.Elements() {
+				known = known || n == D || n == Z
+			}
+			for _, rec := range w.Book {
+				known = known || rec.Name == D
+			}
+			if !known {
+				for _, cmd := range [][]string{{"report", "element-total", "SEL"}, {"bal", "-s", "SEL"}, {"reg", "-s", "SEL"}, {"bal", "-s", "SEL", "-c"}} {
+					with := func(sel string) (run.Result, []string) {
+						a := append([]string{}, cmd...)
+						a[len(a)-1-btoi(len(cmd) == 4)] = sel
+						return runCmd(cmd[0] != "report", a...)
+					}
+					dRes, dArgs := with(D)
+					zRes, zArgs := with(Z)
+					if failed {
+						return
+					}
+					if strings.ReplaceAll(dRes.Out, D, "SEL") != strings.ReplaceAll(zRes.Out, Z, "SEL") {
+						viol("R12 "+cmd[0]+" "+cmd[1]+" selector compared as given", fmt.Sprintf("the selector %q (the element %q decorated) gives a report that differs from the one for a name the book does not have", D, X), dArgs, dRes, zArgs, zRes)
+					} else {
+						ok("R12")
+					}
+				}
+			}
+		}
+
 		// R11: reg -f P rows == csv log rows whose food contains P (P literal, regex-safe)
 		if len(csvRows) > 0 {
 			name := csvRows[r.Intn(len(csvRows))][1]
